@@ -24,8 +24,9 @@ EXPLANATION = (
     "check-only mode nothing is renamed. (P) place names are '<lower-case prefix><variable>' so that every clingo symbol "
     "starts with a lower-case letter, and network_to_petrinet refuses unsanitised names. (O) index hygiene: wherever a "
     "Petri net is built with an explicit symbolic context, that context is derived from the same network object whose "
-    "variables and update functions are read (AEON resolves variables by index, so mixing two orderings of the same "
-    "network silently permutes the update functions). NOT decided and not claimed: isomorphism of the diagrams of "
+    "variables and update functions are read, or from a network obtained from it by order-preserving steps only "
+    "(infer_valid_graph, copy; helper functions are summarised) -- AEON resolves variables by index, so mixing two "
+    "orderings of the same network silently permutes the update functions. NOT decided and not claimed: isomorphism of the diagrams of "
     "renamed / reordered / re-encoded / re-formatted networks (these compare run-time results of transformed inputs)."
 )
 ASSUMPTIONS = [
@@ -239,16 +240,51 @@ def o(ck: Check) -> None:
         raise AnalysisError("anchor vanished: no call of network_to_petrinet")
 
 
+ORDER_PRESERVING_METHODS = {"infer_valid_graph", "copy"}  # reviewed: keep the variables and their order
+
+
+def _same_order(prog, fm: FuncModel, e: ast.AST, net: ast.AST, at, depth: int = 0) -> bool:
+    """e denotes a network with the same variables in the same order as `net` (the same object, or obtained from
+    it by order-preserving steps, possibly inside a helper all of whose returns are such steps of its parameter)."""
+    if depth > 5:
+        return False
+    if text(e) == text(net):
+        return True
+    if isinstance(e, ast.Name):
+        sd_ = fm.single_def(e.id, at)
+        return bool(sd_) and _same_order(prog, fm, sd_[1], net, sd_[0], depth + 1)
+    if isinstance(e, ast.Attribute) and text(e) == "self.network":
+        # the attribute is assigned once in this function from an expression of the network
+        for n in own_walk(fm.f.node):
+            if isinstance(n, (ast.Assign, ast.AnnAssign)) and text(n.targets[0] if isinstance(n, ast.Assign) else n.target) == "self.network" \
+                    and n.value is not None:
+                return _same_order(prog, fm, n.value, net, fm.cfgn(n), depth + 1)
+        return False
+    if isinstance(e, ast.Call):
+        if isinstance(e.func, ast.Attribute) and e.func.attr in ORDER_PRESERVING_METHODS and not e.args:
+            return _same_order(prog, fm, e.func.value, net, at, depth + 1)
+        tgt = prog.repo.resolve_call(fm.f, e)
+        if tgt and not tgt.startswith("ext:") and e.args:
+            g = prog.model(prog.repo.functions[tgt])
+            p0 = g.f.params()[0]
+            rets = [r for r in own_walk(g.f.node) if isinstance(r, ast.Return) and r.value is not None]
+            if rets and all(_same_order(prog, g, r.value, ast.Name(p0, ast.Load()), g.cfgn(r), depth + 1) for r in rets) \
+                    and not any(isinstance(x, ast.Name) and x.id == p0 and isinstance(x.ctx, ast.Store) for x in own_walk(g.f.node)):
+                return _same_order(prog, fm, e.args[0], net, at, depth + 1)
+    return False
+
+
 def _derived_from(fm: FuncModel, ctx: ast.AST, net: ast.AST, at, depth: int) -> bool:
     if depth > 4 or net is None:
         return False
+    prog = fm.prog
     nt = text(net)
     if isinstance(ctx, ast.Name):
         sd_ = fm.single_def(ctx.id, at)
         return bool(sd_) and _derived_from(fm, sd_[1], net, sd_[0], depth + 1)
     if isinstance(ctx, ast.Call):
         nm = callee_name(ctx)
-        if nm == "SymbolicContext" and ctx.args and text(ctx.args[0]) == nt:
+        if nm == "SymbolicContext" and ctx.args and _same_order(prog, fm, ctx.args[0], net, at):
             return True
         if nm == "symbolic_context" and isinstance(ctx.func, ast.Attribute):
             g = ctx.func.value
@@ -256,8 +292,12 @@ def _derived_from(fm: FuncModel, ctx: ast.AST, net: ast.AST, at, depth: int) -> 
             if isinstance(g, ast.Name):
                 sd_ = fm.single_def(g.id, at)
                 g = sd_[1] if sd_ else g
-            if isinstance(g, ast.Call) and callee_name(g) == "AsynchronousGraph" and g.args and text(g.args[0]) == nt:
-                return True
-            if isinstance(g, ast.Attribute) and text(g) == "self.symbolic" and nt == "self.network":
+            if isinstance(g, ast.Attribute) and text(g) == "self.symbolic":
+                for n in own_walk(fm.f.node):
+                    if isinstance(n, (ast.Assign, ast.AnnAssign)) and text(n.targets[0] if isinstance(n, ast.Assign) else n.target) == "self.symbolic" \
+                            and n.value is not None:
+                        g = n.value
+                        at = fm.cfgn(n)
+            if isinstance(g, ast.Call) and callee_name(g) == "AsynchronousGraph" and g.args and _same_order(prog, fm, g.args[0], net, at):
                 return True
     return False
